@@ -732,6 +732,11 @@ var c07Probes = []struct{ key, mode, src string }{
 	{"panic:bytecode.lessThanByteCode", "run", "import \"fmt\"\nfunc main() {\n fmt.Println(1 < float64)\n}\n"},
 	{"panic:bytecode.lessThanOrEqualByteCode", "run", "import \"fmt\"\nfunc main() {\n fmt.Println(1 <= float64)\n}\n"},
 	{"panic:data.TypeOf", "test", "@test \"probe\"\n{\n x := T.assert.foo\n fmt.Println(x)\n}\n"},
+	{"panic:math.minimum", "run", "import \"fmt\"\nimport \"math\"\nfunc main() {\n fmt.Println(math.Min())\n}\n"},
+	{"panic:math.maximum", "run", "import \"fmt\"\nimport \"math\"\nfunc main() {\n fmt.Println(math.Max())\n}\n"},
+	{"panic:math.sum", "run", "import \"fmt\"\nimport \"math\"\nfunc main() {\n fmt.Println(math.Sum())\n}\n"},
+	{"panic:compiler.(*Compiler).testDirective", "test", "@test \"\"\n{\n @assert true\n}\n"},
+	{"panic:data.(*Array).Make", "run", "import \"fmt\"\nfunc main() {\n a := make([]string{\"a\"}, 9223372036854775807)\n fmt.Println(len(a))\n}\n"},
 	{"panic:builtins.Make", "run", "import \"fmt\"\nfunc main() {\n a := make([]int, 9223372036854775807)\n fmt.Println(len(a))\n}\n"},
 	{"fatal:out-of-memory:builtins.Make", "run", "import \"fmt\"\nfunc main() {\n a := make([]int, 1099511627776)\n fmt.Println(len(a))\n}\n"},
 	{"panic:bytecode.exponentByteCode", "run", "import \"fmt\"\nfunc main() {\n fmt.Println(2.5 ^ 2)\n}\n"},
